@@ -44,11 +44,17 @@ pub fn sym(args: &[String]) {
     let mut rng = Rng(seed ^ 0xC13);
     const KINDS: [Kind; 7] = [Kind::Harmonic, Kind::Logistic, Kind::Decay3, Kind::Riccati, Kind::VdP, Kind::Mixed, Kind::Slow];
     for case in 0..cases {
-        let s = gen(&mut rng, &KINDS);
+        let mut s = gen(&mut rng, &KINDS);
+        // the first four cases: a stiff problem on the explicit methods with stiffness detection, long enough for the
+        // detector to run (it looks at every 1000th accepted step), forward and backward
+        if case < 4 {
+            let back = case % 2 == 1;
+            s = Setup { kind: Kind::Stiff, method: if case < 2 { Method::DOP853 } else { Method::DOPRI5 }, x0: 0.0, xend: if back { -6.0 } else { 8.0 }, rtol: 1e-4, atol: 1e-6, first: None, maxstep: None, user_jac: false };
+        }
         let implicit = matches!(s.method, Method::RADAU | Method::BDF);
         let mut base = Prob::new(s.kind);
         base.user_jac = s.user_jac;
-        let with_event = rng.chance(0.3);
+        let with_event = case >= 4 && rng.chance(0.3);
         if with_event {
             let tc = s.x0 + (s.xend - s.x0) * rng.range(0.2, 0.9);
             base.events = vec![EventSpec { a: 1.0, b: vec![0.0; base.n()], c: tc, dir: 0, terminal: None },
@@ -228,7 +234,7 @@ impl IVP for Band {
     fn mass(&self, m: &mut Matrix) {
         match &self.mass {
             None => { struct D; impl IVP for D { fn ode(&self, _: f64, _: &[f64], _: &mut [f64]) {} } D.mass(m) } // the trait default
-            Some(mm) => for r in 0..self.n { for c in 0..self.n { if r.abs_diff(c) <= 1 { m[(r, c)] = mm[r][c]; } } },
+            Some(mm) => for r in 0..self.n { for c in 0..self.n { if r == c || (r.abs_diff(c) <= 1 && mm[r][c] != 0.0) { m[(r, c)] = mm[r][c]; } } },
         }
     }
 }
@@ -314,6 +320,19 @@ pub fn mass(args: &[String]) {
             let full = radau_run(&withm, 0.0, xend, &y0, rtol, atol, MatrixStorage::Full, MatrixStorage::Full, Method::RADAU);
             let why = match &full { None => "run with an explicit mass matrix fails".to_string(), Some(s) if s.status != Status::Success => format!("status {:?}", s.status), Some(s) => err_ok(s).unwrap_or_default() };
             r15(case, "mass-nonsingular", Method::RADAU, "c15-mass-accuracy", &why, &extra);
+            // one-sided bands: a lower (upper) bidiagonal mass matrix in Banded{1,0} (Banded{0,1}) storage
+            for lower in [true, false] {
+                let mut m1 = vec![vec![0.0; n]; n];
+                for i in 0..n { m1[i][i] = 1.0 + 0.1 * (i as f64); if lower && i > 0 { m1[i][i - 1] = 0.4; } if !lower && i + 1 < n { m1[i][i + 1] = -0.3; } }
+                let w1 = Band { n, lo: lo.clone(), di: di.clone(), up: up.clone(), mass: Some(m1), user_jac, count: 0.into() };
+                let f1 = radau_run(&w1, 0.0, xend, &y0, rtol, atol, MatrixStorage::Full, MatrixStorage::Full, Method::RADAU);
+                let st = if lower { MatrixStorage::Banded { ml: 1.min(n - 1), mu: 0 } } else { MatrixStorage::Banded { ml: 0, mu: 1.min(n - 1) } };
+                let b1 = radau_run(&w1, 0.0, xend, &y0, rtol, atol, st, MatrixStorage::Full, Method::RADAU);
+                let why = match (&f1, &b1) {
+                    (Some(f), Some(b)) => if !same_traj(f, b) { format!("{} bidiagonal mass: one-sided Banded storage gives a different trajectory than Full storage", if lower { "lower" } else { "upper" }) } else { err_ok(f).unwrap_or_default() },
+                    _ => "run fails".into() };
+                r15(case, if lower { "storage-mass-lower" } else { "storage-mass-upper" }, Method::RADAU, "c15-storage", &why, &extra);
+            }
             if let Some(full) = &full {
                 let b1 = radau_run(&withm, 0.0, xend, &y0, rtol, atol, MatrixStorage::Banded { ml: 1, mu: 1 }, MatrixStorage::Full, Method::RADAU);
                 let why = match &b1 { None => "banded mass storage: run fails".to_string(), Some(r) if !same_traj(r, full) => "the same mass matrix in Banded{1,1} storage gives a different trajectory than in Full storage".into(), _ => String::new() };
@@ -366,7 +385,8 @@ pub fn mass(args: &[String]) {
 // ------------------------------------------------------------------------------------------------------------ C01
 fn tol_of(mode: usize, rtol: f64, atol: f64, n: usize) -> (Tolerance, Tolerance, Vec<f64>, Vec<f64>) {
     match mode {
-        1 => { let av: Vec<f64> = (0..n).map(|i| atol * (1.0 + i as f64)).collect(); (rtol.into(), Tolerance::Vector(av.clone()), vec![rtol; n], av) }
+        // per-component atol: a loose first component next to tight ones (each component is held to its own scale)
+        1 => { let av: Vec<f64> = (0..n).map(|i| if i == 0 { (atol * 1e4).min(1e-2) } else { atol }).collect(); (rtol.into(), Tolerance::Vector(av.clone()), vec![rtol; n], av) }
         2 => (0.0.into(), (rtol * 0.1).into(), vec![0.0; n], vec![rtol * 0.1; n]),           // pure absolute
         3 => (rtol.into(), 0.0.into(), vec![rtol; n], vec![0.0; n]),                           // pure relative
         _ => (rtol.into(), atol.into(), vec![rtol; n], vec![atol; n]),
@@ -410,9 +430,14 @@ pub fn accuracy(args: &[String]) {
             let nacc = s.naccpt.max(1) as f64;
             for (t, y) in s.t.iter().zip(s.y.iter()) {
                 let ex = p.exact(*t).unwrap();
+                // coupled components inherit each other's errors: their scale is the loosest one; uncoupled systems
+                // (diagonal Jacobian) are held to their own per-component scale
+                let coupled = matches!(kind, Kind::Harmonic);
+                let loosest = (0..n).map(|i| av[i] + rv[i] * ex[i].abs()).fold(0.0, f64::max);
                 for i in 0..n {
                     let e = (y[i] - ex[i]).abs();
-                    let bound = 10.0 * nacc * (av[i] + rv[i] * ex[i].abs()) + 200.0 * f64::EPSILON * nacc * (1.0 + ex[i].abs());
+                    let sc = if coupled { loosest } else { av[i] + rv[i] * ex[i].abs() };
+                    let bound = 10.0 * nacc * sc + 200.0 * f64::EPSILON * nacc * (1.0 + ex[i].abs());
                     emax = emax.max(e);
                     if e / bound > rmax { rmax = e / bound; worst = format!("component {} at t = {}: error {:.3e}, 10 * naccpt({}) * (atol + rtol |y|) = {:.3e}", i, t, e, s.naccpt, bound); }
                 }
@@ -525,10 +550,12 @@ pub fn stiff(args: &[String]) {
         r14(case, "prothero-robinson", method, key, &why, &format!("\"n\":{},\"user_jac\":{},\"rtol\":{},\"back\":{},\"steps\":{:?},", n, user_jac, jnum(rtol), back, steps));
     }
     // Robertson and Van der Pol
-    for (k, (kind, xend)) in [(Kind::Robertson, 40.0), (Kind::Robertson, 4000.0), (Kind::VdPStiff, 30.0), (Kind::VdPStiff, 800.0)].iter().enumerate() {
+    // (Van der Pol over three periods' worth of fast transitions, at loose and moderate tolerances: many recovered Newton failures)
+    for (k, (kind, xend, rtol)) in [(Kind::Robertson, 40.0, 1e-5), (Kind::Robertson, 4000.0, 1e-5), (Kind::VdPStiff, 30.0, 1e-5), (Kind::VdPStiff, 800.0, 1e-5),
+                                    (Kind::VdPStiff, 3000.0, 1e-3), (Kind::VdPStiff, 3000.0, 1e-4), (Kind::Robertson, 1e6, 1e-3)].iter().enumerate() {
         for method in [Method::RADAU, Method::BDF] { for user_jac in [true, false] {
             let p = Prob { user_jac, ..Prob::new(*kind) };
-            let o = Options::builder().method(method).rtol(1e-5).atol(1e-9).build();
+            let o = Options::builder().method(method).rtol(*rtol).atol(rtol * 1e-4).build();
             let mut why = String::new();
             let mut key = "";
             let mut extra = String::new();
@@ -536,7 +563,7 @@ pub fn stiff(args: &[String]) {
                 Ok(Ok(s)) => {
                     extra = format!("\"nstep\":{},\"naccpt\":{},\"nrejct\":{},", s.nstep, s.naccpt, s.nrejct);
                     if s.status != Status::Success { why = format!("{:?} to t = {}: status {:?}", kind, xend, s.status); key = "c14-status"; }
-                    else if s.nstep > 3000 { why = format!("{:?} to t = {}: {} steps", kind, xend, s.nstep); key = "c14-steps"; }
+                    else if s.nstep > 6000 { why = format!("{:?} to t = {}: {} steps", kind, xend, s.nstep); key = "c14-steps"; }
                     else if *kind == Kind::Robertson {
                         // the linear invariant y1 + y2 + y3 = 1 is preserved to rounding
                         let dev = s.y.iter().map(|y| (y[0] + y[1] + y[2] - 1.0).abs()).fold(0.0, f64::max);
@@ -548,7 +575,7 @@ pub fn stiff(args: &[String]) {
                 }
                 _ => { why = "run fails".into(); key = "c14-status"; }
             }
-            r14(200000 + k, &format!("{:?}", kind), method, key, &why, &format!("{}\"user_jac\":{},\"xend\":{},", extra, user_jac, xend));
+            r14(200000 + k, &format!("{:?}", kind), method, key, &why, &format!("{}\"user_jac\":{},\"xend\":{},\"rtol\":{},", extra, user_jac, xend, jnum(*rtol)));
         } }
     }
 }
